@@ -220,71 +220,88 @@ package fp
 //@   prop C12 C20
 //@   ensures iterDropWhileStep(r, p, next)
 //
-// Filter: abstract position a = pos-1 when a match is cached in fv, pos
-// otherwise; the abstract iterator yields the E[j], j >= a, with p(E[j]).
-// mode 0: HasNext; mode 1: Next (functional part, protocol); mode 2: Next
-// pulls at most one element beyond the one it returns (laziness clause of C12).
+// Filter: the only captured state is fv (a match found by HasNext and not yet
+// handed out).  Abstract position a = pos-1 when fv is defined, pos otherwise;
+// the abstract iterator yields the E[j], j >= a, with p(E[j]).
+// mode 0: HasNext (twice); mode 1: HasNext then Next; mode 2 / 3: Next without
+// HasNext when the next match is at index k / when the source is exhausted.
+// Laziness (C12): one HasNext or Next pulls up to and including the next match
+// and nothing beyond: the source position afterwards is (index of that match)+1
+// (or len when there is none), and a cached match costs no pull at all.
 //
 //@ ghost
 //@ func iterFilterInv[T any](r Iterator[T], it Iterator[T], p func(T) bool) bool {
-//@ 	first := verifspec.Cell[bool](it, "first")
 //@ 	fv := verifspec.Cell[Option[T]](it, "fv")
 //@ 	pos := verifspec.IterPos(r)
-//@ 	if first {
-//@ 		return true
-//@ 	}
 //@ 	if fv.IsDefined() {
 //@ 		return pos >= 1 && verifspec.Eq(fv.Get(), verifspec.IterAt[T](r, pos-1)) && p(fv.Get())
 //@ 	}
-//@ 	return pos == verifspec.IterLen(r)
+//@ 	return true
 //@ }
-//@ func iterFilterStep[T any](r Iterator[T], p func(T) bool, mode int) bool {
+//@ func iterFilterStep[T any](r Iterator[T], p func(T) bool, mode int, k int) bool {
 //@ 	it := r.Filter(p)
+//@ 	c0 := verifspec.IterPos(r) == 0 && !verifspec.Cell[Option[T]](it, "fv").IsDefined()
 //@ 	verifspec.Havoc(it)
 //@ 	verifspec.Assume(iterFilterInv(r, it, p))
 //@ 	p0 := verifspec.IterPos(r)
 //@ 	n := verifspec.IterLen(r)
+//@ 	cached := verifspec.Cell[Option[T]](it, "fv").IsDefined()
 //@ 	a := p0
-//@ 	if !verifspec.Cell[bool](it, "first") && verifspec.Cell[Option[T]](it, "fv").IsDefined() {
+//@ 	if cached {
 //@ 		a = p0 - 1
+//@ 	}
+//@ 	if !c0 {
+//@ 		return false
+//@ 	}
+//@ 	if mode == 2 {
+//@ 		verifspec.Assume(a <= k && k < n && p(verifspec.IterAt[T](r, k)) && verifspec.Forall(func(j int) bool { return !(a <= j && j < k) || !p(verifspec.IterAt[T](r, j)) }))
+//@ 		v := it.Next()
+//@ 		return Eq(v, verifspec.IterAt[T](r, k)) && verifspec.IterPos(r) == k+1 && !verifspec.Cell[Option[T]](it, "fv").IsDefined()
+//@ 	}
+//@ 	if mode == 3 {
+//@ 		// Panics() cannot look through a loop cut point (see iterBoundedDirectNext for
+//@ 		// the case where Find still has elements to skip): source already exhausted.
+//@ 		verifspec.Assume(!cached && p0 == n)
+//@ 		return Panics(it.Next())
 //@ 	}
 //@ 	h1 := it.HasNext()
 //@ 	p1 := verifspec.IterPos(r)
 //@ 	fv1 := verifspec.Cell[Option[T]](it, "fv")
 //@ 	inv1 := iterFilterInv(r, it, p)
-//@ 	first1 := verifspec.Cell[bool](it, "first")
 //@ 	h2 := it.HasNext()
+//@ 	if h2 != h1 || verifspec.IterPos(r) != p1 || !inv1 || h1 != fv1.IsDefined() {
+//@ 		return false
+//@ 	}
+//@ 	if cached && (!h1 || p1 != p0) {
+//@ 		return false
+//@ 	}
 //@ 	if mode == 0 {
-//@ 		if h2 != h1 || verifspec.IterPos(r) != p1 || !inv1 || first1 || h1 != fv1.IsDefined() {
-//@ 			return false
-//@ 		}
 //@ 		if h1 {
-//@ 			return a <= p1-1 && p1-1 < n && verifspec.Forall(func(j int) bool { return !(a <= j && j < p1-1) || !p(verifspec.IterAt[T](r, j)) })
+//@ 			return a <= p1-1 && p1-1 < n && p(verifspec.IterAt[T](r, p1-1)) && verifspec.Forall(func(j int) bool { return !(a <= j && j < p1-1) || !p(verifspec.IterAt[T](r, j)) })
 //@ 		}
-//@ 		return verifspec.Forall(func(j int) bool { return !(a <= j && j < n) || !p(verifspec.IterAt[T](r, j)) })
+//@ 		return p1 == n && verifspec.Forall(func(j int) bool { return !(a <= j && j < n) || !p(verifspec.IterAt[T](r, j)) })
 //@ 	}
 //@ 	if !h1 {
-//@ 		return mode == 2 || (Panics(it.Next()) && verifspec.IterPos(r) == p1)
+//@ 		return Panics(it.Next()) && verifspec.IterPos(r) == p1
 //@ 	}
 //@ 	v := it.Next()
-//@ 	if mode == 1 {
-//@ 		return Eq(v, verifspec.IterAt[T](r, p1-1)) && iterFilterInv(r, it, p) && !verifspec.Cell[bool](it, "first") && verifspec.IterPos(r) >= p1
-//@ 	}
-//@ 	return verifspec.IterPos(r) <= p1+1
+//@ 	return Eq(v, verifspec.IterAt[T](r, p1-1)) && verifspec.IterPos(r) == p1 && !verifspec.Cell[Option[T]](it, "fv").IsDefined()
 //@ }
 //@ end
 //
 //@ lemma iterFilter[T any](r Iterator[T], p func(T) bool)
 //@   prop C12 C20
-//@   ensures iterFilterStep(r, p, 0)
+//@   ensures iterFilterStep(r, p, 0, 0)
 //@   tag hasNext
-//@   ensures iterFilterStep(r, p, 1)
+//@   ensures iterFilterStep(r, p, 1, 0)
 //@   tag next
 //
-//@ lemma iterFilterLazy[T any](r Iterator[T], p func(T) bool)
-//@   prop C12
-//@   ensures iterFilterStep(r, p, 2)
-//@   tag next-bounded-lookahead
+//@ lemma iterFilterLazy[T any](r Iterator[T], p func(T) bool, k int)
+//@   prop C12 C20
+//@   ensures iterFilterStep(r, p, 2, k)
+//@   tag next-without-hasNext-pulls-through-match-only
+//@   ensures iterFilterStep(r, p, 3, k)
+//@   tag next-without-hasNext-exhausted-panics
 //
 // Map / TapEach: stateless pass-through of the source.
 //
@@ -332,31 +349,69 @@ package fp
 //@   prop C12 C20
 //@   ensures iterTapEachStep(r, f, next)
 //
-// Drop is eager: it pulls min(n, len) elements while it is being constructed
-// and returns the source itself.  The clause `lazy-construction` is the
-// laziness requirement of C12 (no demand yet => nothing pulled).
+// Drop is lazy: the captured flag `dropped` records whether the n elements
+// have been skipped; the skipping loop lives in the closure `drop` (loop 0 of
+// Drop).  From a state with !dropped at source position p0 the iterator yields
+// E[min(p0+max(n,0), len)..) (p0 = 0 initially: E[min(n,len)..)); with dropped
+// it is the source.  direct: Next is called without HasNext.
+// Laziness (C12): construction pulls nothing; the first HasNext/Next pulls
+// exactly the skipped elements (plus, for Next, the returned one).
 //
 //@ func (Iterator).Drop(r, n) result
 //@   prop C12 C20
-//@   ensures n <= 0 ==> IterPos(r) == 0
-//@   ensures 0 <= n && n <= IterLen(r) ==> IterPos(r) == n
-//@   ensures n > IterLen(r) ==> IterPos(r) == IterLen(r)
-//@   ensures IterLen(result) == IterLen(r) && IterPos(result) == IterPos(r) && (forall j int :: Eq(verifspec.IterAt[T](result, j), verifspec.IterAt[T](r, j)))
-//@   tag result-is-source
-//@   loop 0 invariant 0 <= i && i < n && IterPos(r) == i && i < IterLen(r)
+//@   ensures IterPos(r) == 0
+//@   tag construction-pulls-nothing
+//@   loop 0 invariant 0 <= i && i < n && IterPos(r) == IterPosAtEntry(r) + i && IterPos(r) < IterLen(r)
 //@   loop 0 decreases n - i
 //
 //@ ghost
-//@ func iterDropLazyOK[T any](r Iterator[T], n int) bool {
+//@ func iterDropStep[T any](r Iterator[T], n int, direct bool, next bool) bool {
 //@ 	it := r.Drop(n)
-//@ 	return it.hasNext != nil && verifspec.IterPos(r) == 0
+//@ 	c0 := verifspec.IterPos(r) == 0 && !verifspec.Cell[bool](it, "dropped")
+//@ 	verifspec.Havoc(it)
+//@ 	p0 := verifspec.IterPos(r)
+//@ 	len := verifspec.IterLen(r)
+//@ 	start := p0
+//@ 	if !verifspec.Cell[bool](it, "dropped") && n > 0 {
+//@ 		start = p0 + n
+//@ 		if start > len {
+//@ 			start = len
+//@ 		}
+//@ 	}
+//@ 	want := start < len
+//@ 	if !c0 {
+//@ 		return false
+//@ 	}
+//@ 	if !direct {
+//@ 		if it.HasNext() != want || verifspec.IterPos(r) != start || !verifspec.Cell[bool](it, "dropped") {
+//@ 			return false
+//@ 		}
+//@ 		if it.HasNext() != want || verifspec.IterPos(r) != start || !verifspec.Cell[bool](it, "dropped") {
+//@ 			return false
+//@ 		}
+//@ 		if !next {
+//@ 			return true
+//@ 		}
+//@ 	}
+//@ 	if !want {
+//@ 		if direct && start != p0 {
+//@ 			// the skipping loop would run inside Panics(), which cannot look through a
+//@ 			// loop cut point: covered by iterBoundedDirectNext
+//@ 			return true
+//@ 		}
+//@ 		return Panics(it.Next())
+//@ 	}
+//@ 	v := it.Next()
+//@ 	return Eq(v, verifspec.IterAt[T](r, start)) && verifspec.IterPos(r) == start+1 && verifspec.Cell[bool](it, "dropped")
 //@ }
 //@ end
 //
-//@ lemma iterDropLazy[T any](r Iterator[T], n int)
-//@   prop C12
-//@   ensures iterDropLazyOK(r, n)
-//@   tag lazy-construction
+//@ lemma iterDrop[T any](r Iterator[T], n int, next bool)
+//@   prop C12 C20
+//@   ensures iterDropStep(r, n, false, next)
+//@   tag hasNext-then-next
+//@   ensures iterDropStep(r, n, true, true)
+//@   tag next-without-hasNext
 //
 //@ func (Iterator).Foreach(r, p)
 //@   prop C12
@@ -458,7 +513,11 @@ package fp
 //@ 	if verifspec.Cell[Option[T]](dw, "first").IsDefined() || verifspec.Cell[bool](dw, "found") {
 //@ 		return false
 //@ 	}
-//@ 	return verifspec.Cell[bool](fl, "first") && verifspec.Cell[bool](fn, "first") && iterFilterInv(r, fl, p) && Unchanged()
+//@ 	d := r.Drop(n)
+//@ 	if verifspec.Cell[bool](d, "dropped") || verifspec.IterPos(r) != 0 {
+//@ 		return false
+//@ 	}
+//@ 	return !verifspec.Cell[Option[T]](fl, "fv").IsDefined() && !verifspec.Cell[Option[T]](fn, "fv").IsDefined() && iterFilterInv(r, fl, p) && Unchanged()
 //@ }
 //@ end
 //
@@ -681,6 +740,19 @@ package fp
 //@   ensures iterProtoAll(func() Iterator[T] { return IteratorOfSeq([]T{a, b, c}).Drop(1) }, []T{b, c})
 //@   ensures iterProtoAll(func() Iterator[T] { return IteratorOfOption(Some(a)) }, []T{a})
 //@   ensures iterProtoAll(func() Iterator[T] { return IteratorOfOption(None[T]()) }, []T{})
+//
+// Next without HasNext on an iterator that still has to skip elements before it
+// finds out that it is exhausted (not expressible in the step lemmas: Panics()
+// cannot look through a loop cut point).
+//
+//@ lemma iterBoundedDirectNext[T any](a, b, c T, p func(T) bool)
+//@   prop C12 C20
+//@   option unroll
+//@   ensures !p(a) && !p(b) && !p(c) ==> Panics(IteratorOfSeq([]T{a, b, c}).Filter(p).Next())
+//@   ensures p(a) && !p(b) && !p(c) ==> iterProto(IteratorOfSeq([]T{a, b, c}).Filter(p), []T{a}, -2)
+//@   ensures p(a) && p(b) && p(c) ==> Panics(IteratorOfSeq([]T{a, b, c}).FilterNot(p).Next())
+//@   ensures Panics(IteratorOfSeq([]T{a, b, c}).Drop(3).Next()) && Panics(IteratorOfSeq([]T{a, b, c}).Drop(5).Next())
+//@   ensures iterProto(IteratorOfSeq([]T{a, b, c}).Drop(2), []T{c}, -2) && iterProto(IteratorOfSeq([]T{a, b, c}).Drop(-1), []T{a, b, c}, -2)
 //
 //@ lemma iterBoundedFilter[T any](a, b, c T, p func(T) bool)
 //@   prop C12 C20
